@@ -87,6 +87,23 @@ Proof.
 Qed.
 Print Assumptions C01_planar2d_logicals_for_all_sizes.
 
+(** Layer P, qubit and generator counts of the 2-D surface classes for every size: the toric code has as many generators as
+    qubits (two of them dependent), the planar code exactly one fewer. *)
+From PQ Require Counts2D.
+Theorem C01_counts_2d_for_all_sizes :
+  forall (Lx Ly : BinNums.Z), (1 <= Lx)%Z -> (1 <= Ly)%Z ->
+  (BinInt.Z.of_nat (length (Toric2D.qubits Lx Ly)) = 2 * Lx * Ly /\ BinInt.Z.of_nat (length (Toric2D.stab_coords Lx Ly)) = 2 * Lx * Ly)%Z /\
+  (BinInt.Z.of_nat (length (Planar2D.qubits Lx Ly)) = Lx * Ly + (Lx - 1) * (Ly - 1) /\
+   BinInt.Z.of_nat (length (Planar2D.stab_coords Lx Ly)) = Lx * Ly + (Lx - 1) * (Ly - 1) - 1)%Z /\
+  (BinInt.Z.of_nat (length (RotatedPlanar2D.qubits Lx Ly)) = Lx * Ly)%Z.
+Proof.
+  intros Lx Ly H1 H2. split; [|split].
+  - exact (Counts2D.toric2d_counts Lx Ly H1 H2).
+  - exact (Counts2D.planar2d_counts Lx Ly H1 H2).
+  - exact (Counts2D.rotated_planar2d_qubit_count Lx Ly H1 H2).
+Qed.
+Print Assumptions C01_counts_2d_for_all_sizes.
+
 (** Layer P, RotatedPlanar2DCode, every size L_x, L_y >= 2 *)
 From PQ Require RotatedPlanar2D.
 Theorem C01_rotated_planar2d_all_stabilizers_commute_for_all_sizes :
